@@ -253,7 +253,7 @@ class Prov:
         for _ in range(depth):
             if o.const is not None:
                 return o.const_value()
-            if o.place is None or o.place.proj:
+            if o.place is None or any(pr[0] != "deref" for pr in o.place.proj):
                 return None
             ds = [x for x in d.defs.get(o.place.local, ()) if x[0] != "mutarg"]
             if len(ds) != 1 or ds[0][0] != "stmt":
@@ -266,6 +266,9 @@ class Prov:
                 continue
             if rv.k == "cast":
                 o = rv.ops[0]
+                continue
+            if rv.k == "ref" and all(pr[0] == "deref" for pr in rv.place.proj):
+                o = Operand({"copy": {"l": rv.place.local, "p": []}})
                 continue
             return None
         return None
